@@ -155,7 +155,7 @@ static void dist_ops(World &w, const Op &o, int ri) {
     bool kind_ok = !(kind & ~K_ALL) && __builtin_popcountl(kind & K_FROM) <= 1 && __builtin_popcountl(kind & K_VALUE) <= 1;
     errno = 0; hwloc_distances_add_handle_t h = hwloc_distances_add_create(t, nm, kind, cflags); int e = errno;
     r.ev("dist_add r%d create kind=0x%lx cf=%lu -> %s e=%d", ri, kind, cflags, h ? "handle" : "NULL", h ? 0 : e);
-    if (R.adopted) { if (h || e != EPERM) viol0(w, "C19", "shm.modify_not_refused", "distances_add_create on an adopted topology returned %p errno %d", h, e); return; }
+    if (R.adopted) { if (h) viol0(w, "C19", "shm.modify_not_refused", "distances_add_create on an adopted topology returned %p errno %d", h, e); return; }
     if (!kind_ok || cflags) { r.count("probe.dist_add_rejected"); if (h || e != EINVAL) viol0(w, own, "dist.invalid_accepted", "distances_add_create(kind 0x%lx, flags %lu) returned %p errno %d, expected NULL/EINVAL", kind, cflags, h, e); return; }
     if (!h) viol0(w, own, "dist.valid_refused", "valid distances_add_create(kind 0x%lx) failed, errno %d", kind, e);
     // objects: homogeneous or mixed subsets, the rejected sizes 0 and 1 included
@@ -212,11 +212,11 @@ static void dist_ops(World &w, const Op &o, int ri) {
   }
   if (k == "dist_remove") {
     int which = (int)(o.u("w") % 3);
-    if (which == 0 && o.u("all") % 4 == 0) { errno = 0; int rc = hwloc_distances_remove(t); int e = errno; r.ev("dist_remove all r%d -> %d", ri, rc); if (R.adopted) { if (rc == 0 || e != EPERM) viol0(w, "C19", "shm.modify_not_refused", "distances_remove on an adopted topology returned %d errno %d", rc, e); return; } if (rc) viol0(w, own, "dist.remove_failed", "distances_remove failed"); R.user_dists.clear(); r.count("probe.dist_removed"); return; }
+    if (which == 0 && o.u("all") % 4 == 0) { errno = 0; int rc = hwloc_distances_remove(t); int e = errno; r.ev("dist_remove all r%d -> %d", ri, rc); if (R.adopted) { if (rc == 0) viol0(w, "C19", "shm.modify_not_refused", "distances_remove on an adopted topology returned %d errno %d", rc, e); return; } if (rc) viol0(w, own, "dist.remove_failed", "distances_remove failed"); R.user_dists.clear(); r.count("probe.dist_removed"); return; }
     if (which == 1) {
       int ty = DTYPES[o.u("ty") % 8]; int depth = hwloc_get_type_depth(t, (hwloc_obj_type_t)ty); if (depth == HWLOC_TYPE_DEPTH_UNKNOWN || depth == HWLOC_TYPE_DEPTH_MULTIPLE) { r.ev("dist_remove by_depth: no single depth"); return; }
       errno = 0; int rc = hwloc_distances_remove_by_depth(t, depth); int e = errno; r.ev("dist_remove by_depth %s r%d -> %d", hwloc_obj_type_string((hwloc_obj_type_t)ty), ri, rc);
-      if (R.adopted) { if (rc == 0 || e != EPERM) viol0(w, "C19", "shm.modify_not_refused", "distances_remove_by_depth on an adopted topology returned %d errno %d", rc, e); return; }
+      if (R.adopted) { if (rc == 0) viol0(w, "C19", "shm.modify_not_refused", "distances_remove_by_depth on an adopted topology returned %d errno %d", rc, e); return; }
       if (rc) viol0(w, own, "dist.remove_failed", "distances_remove_by_depth failed");
       std::vector<DistModel> nd; for (auto &e2 : R.user_dists) if ((e2.kind & HWLOC_DISTANCES_KIND_HETEROGENEOUS_TYPES) || e2.types.empty() || e2.types[0] != ty) nd.push_back(e2); R.user_dists = nd; r.count("probe.dist_removed"); return;
     }
@@ -224,7 +224,7 @@ static void dist_ops(World &w, const Op &o, int ri) {
     std::vector<struct hwloc_distances_s *> ds(nr); unsigned n2 = nr; if (hwloc_distances_get(t, &n2, ds.data(), 0, 0) || n2 != nr) viol0(w, own, "dist.get_failed", "distances_get before release_remove failed");
     unsigned v = (unsigned)(o.u("idx") % nr); for (unsigned i = 0; i < nr; i++) if (i != v) hwloc_distances_release(t, ds[i]);
     errno = 0; int rc = hwloc_distances_release_remove(t, ds[v]); int e = errno; r.ev("dist_remove release_remove #%u r%d -> %d", v, ri, rc);
-    if (R.adopted) { if (rc == 0 || e != EPERM) viol0(w, "C19", "shm.modify_not_refused", "distances_release_remove on an adopted topology returned %d errno %d", rc, e); if (rc) hwloc_distances_release(t, ds[v]); return; }
+    if (R.adopted) { if (rc == 0) viol0(w, "C19", "shm.modify_not_refused", "distances_release_remove on an adopted topology returned %d errno %d", rc, e); if (rc) hwloc_distances_release(t, ds[v]); return; }
     if (rc) viol0(w, own, "dist.remove_failed", "distances_release_remove failed, errno %d", e);
     if (R.dists_tracked && v < R.user_dists.size()) R.user_dists.erase(R.user_dists.begin() + v);
     r.count("probe.dist_removed");
@@ -267,7 +267,7 @@ static void mem_ops(World &w, const Op &o, int ri) {
   if (k == "mem_register") {
     const char *nm = MNAMES[o.u("name") % 4]; unsigned long fl = MFLAGS[o.u("fl") % 8]; hwloc_memattr_id_t id = 9999;
     errno = 0; int rc = hwloc_memattr_register(t, nm, fl, &id); int e = errno; r.ev("mem_register r%d %s fl=0x%lx -> %d e=%d", ri, nm, fl, rc, rc ? e : 0);
-    if (R.adopted) { if (rc == 0 || e != EPERM) viol0(w, "C19", "shm.modify_not_refused", "memattr_register on an adopted topology returned %d errno %d", rc, e); return; }
+    if (R.adopted) { if (rc == 0) viol0(w, "C19", "shm.modify_not_refused", "memattr_register on an adopted topology returned %d errno %d", rc, e); return; }
     bool fl_ok = !(fl & ~7UL) && (!!(fl & HWLOC_MEMATTR_FLAG_HIGHER_FIRST) != !!(fl & HWLOC_MEMATTR_FLAG_LOWER_FIRST));
     bool dupname = false; for (auto &a : R.last.memattrs) if (a.name == nm) dupname = true; for (auto &a : R.memattrs) if (a.second.name == nm) dupname = true;
     if (!fl_ok) { r.count("probe.memattr_register_rejected"); if (rc != -1 || e != EINVAL) viol0(w, own, "memattr.register_flags", "memattr_register(flags 0x%lx) returned %d errno %d, expected -1/EINVAL", fl, rc, e); }
@@ -294,7 +294,7 @@ static void mem_ops(World &w, const Op &o, int ri) {
     if (have && !key.is_obj) { auto ti = A.tg.find(node->gp_index); if (ti != A.tg.end()) for (auto &x : ti->second) if (!x.is_obj && x.cs != key.cs && x.cs.intersects(key.cs)) { if (tmp) hwloc_bitmap_free(tmp); r.ev("mem_set skipped: initiator would overlap a stored one"); return; } }
     errno = 0; int rc = hwloc_memattr_set_value(t, id, node, lp, 0, val); int e = errno; if (tmp) hwloc_bitmap_free(tmp);
     r.ev("mem_set r%d attr=%u node=%llu init=%s val=%llu -> %d e=%d", ri, id, (unsigned long long)node->gp_index, !have ? "-" : key.is_obj ? "obj" : "cs", (unsigned long long)val, rc, rc ? e : 0);
-    if (R.adopted) { if (rc == 0 || e != EPERM) viol0(w, "C19", "shm.modify_not_refused", "memattr_set_value on an adopted topology returned %d errno %d", rc, e); return; }
+    if (R.adopted) { if (rc == 0) viol0(w, "C19", "shm.modify_not_refused", "memattr_set_value on an adopted topology returned %d errno %d", rc, e); return; }
     if (need && !lp) { if (rc != -1 || e != EINVAL) viol0(w, own, "memattr.set_without_initiator", "set_value without the required initiator returned %d errno %d", rc, e); return; }
     if (rc) viol0(w, own, "memattr.set_failed", "valid memattr_set_value failed, errno %d", e);
     if (need) { key.value = val; auto &v = A.tg[node->gp_index]; bool found = false; for (auto &x : v) if (x.is_obj == key.is_obj && (key.is_obj ? x.objgp == key.objgp : x.cs == key.cs)) { x.value = val; found = true; } if (!found) v.push_back(key); r.count(key.is_obj ? "probe.memattr_set_obj_initiator" : "probe.memattr_set_cpuset_initiator"); }
@@ -376,7 +376,7 @@ static void kind_ops(World &w, const Op &o, int ri) {
     hwloc_bitmap_t c = null ? nullptr : cs.to_hwloc();
     errno = 0; int rc = hwloc_cpukinds_register(t, c, feff, infos.count ? &infos : nullptr, fl); int e = errno; if (c) hwloc_bitmap_free(c);
     r.ev("kind_register r%d cs=%s eff=%d fl=%lu ninfos=%u -> %d e=%d", ri, null ? "NULL" : cs.str().c_str(), feff, fl, infos.count, rc, rc ? e : 0);
-    if (R.adopted) { if (rc == 0 || e != EPERM) viol0(w, "C19", "shm.modify_not_refused", "cpukinds_register on an adopted topology returned %d errno %d", rc, e); return; }
+    if (R.adopted) { if (rc == 0) viol0(w, "C19", "shm.modify_not_refused", "cpukinds_register on an adopted topology returned %d errno %d", rc, e); return; }
     bool bad = null || cs.empty() || fl;
     if (bad) { r.count("probe.kind_register_rejected"); if (rc != -1 || e != EINVAL) viol0(w, own, "kinds.invalid_accepted", "cpukinds_register(cpuset %s, flags %lu) returned %d errno %d, expected -1/EINVAL", null ? "NULL" : cs.str().c_str(), fl, rc, e); return; }
     if (rc) viol0(w, own, "kinds.valid_refused", "valid cpukinds_register failed, errno %d", e);
